@@ -142,6 +142,34 @@ pub fn suite_pin(t: &mut Tracer, thorough: bool, seed: u64) {
         );
         emit(t, "pin_flip", m, meas.panicked);
     }
+    // -- only the leaf counts: a pinned certificate sent as an *intermediate* vouches for nothing
+    {
+        let d = 86_400i64;
+        let (leaf_a, _) = mint("p256", T0, T0 + 5 * d, vec!["localhost".into()]);
+        let (leaf_b, _) = mint("p256", T0, T0 + 5 * d, vec!["localhost".into()]);
+        let hash_a = Certificate::from_der(leaf_a.clone()).expect("cert").hash();
+        for (name, leaf, inter, expect_pinned) in [
+            ("pinned_leaf_other_intermediate", &leaf_a, vec![leaf_b.clone()], true),
+            ("other_leaf_pinned_intermediate", &leaf_b, vec![leaf_a.clone()], false),
+            ("other_leaf_pinned_twice", &leaf_b, vec![leaf_a.clone(), leaf_a.clone()], false),
+            ("pinned_leaf_pinned_intermediate", &leaf_a, vec![leaf_a.clone()], true),
+        ] {
+            let meas = measure(|| {
+                let v = ServerHashVerification::new(vec![hash_a.clone()]);
+                let cert = rustls_pki_types::CertificateDer::from(leaf.to_vec());
+                let inters: Vec<rustls_pki_types::CertificateDer> =
+                    inter.iter().map(|x| rustls_pki_types::CertificateDer::from(x.clone())).collect();
+                let name = rustls_pki_types::ServerName::try_from("localhost").unwrap();
+                let now = rustls_pki_types::UnixTime::since_unix_epoch(Duration::from_secs((T0 + d) as u64));
+                v.verify_server_cert(&cert, &inters, &name, &[], now).is_ok()
+            });
+            let mut m = Map::new();
+            put(&mut m, "case", json!(name));
+            put(&mut m, "leaf_pinned", json!(expect_pinned));   // (an input: which certificate's hash was configured)
+            put(&mut m, "res", json!(match meas.value { Some(true) => "ok", Some(false) => "err", None => "panic" }));
+            emit(t, "pin_chain", m, meas.panicked);
+        }
+    }
     // -- the pin is checked against the clock on every connection of an endpoint, not only the first
     {
         let rt = tokio::runtime::Builder::new_multi_thread().worker_threads(2).enable_all().build().unwrap();
@@ -207,9 +235,9 @@ pub fn suite_ident(t: &mut Tracer, thorough: bool, seed: u64, scratch: &str) {
         vec!["1.2.3", "1.2.3.4.5", "256.1.1.1", "01.2.3.4"],
     ];
     let variants: Vec<&str> = if thorough {
-        vec!["self_signed", "days1", "days14", "days15", "days365", "period", "offset"]
+        vec!["self_signed", "days1", "days14", "days15", "days365", "period", "offset", "nb_days14", "nb_days3"]
     } else {
-        vec!["self_signed", "days14", "days15", "period"]
+        vec!["self_signed", "days14", "days15", "period", "nb_days14", "nb_days3"]
     };
     for sans in &san_lists {
         for variant in &variants {
@@ -222,6 +250,15 @@ pub fn suite_ident(t: &mut Tracer, thorough: bool, seed: u64, scratch: &str) {
                     "days14" => b.from_now_utc().validity_days(14).build(),
                     "days15" => b.from_now_utc().validity_days(15).build(),
                     "days365" => b.from_now_utc().validity_days(365).build(),
+                    // the period counts from not_before, wherever that is relative to now
+                    "nb_days14" => b
+                        .not_before(time::OffsetDateTime::from_unix_timestamp(T0 - 5 * 86400).unwrap())
+                        .validity_days(14)
+                        .build(),
+                    "nb_days3" => b
+                        .not_before(time::OffsetDateTime::from_unix_timestamp(T0 + 40 * 86400).unwrap())
+                        .validity_days(3)
+                        .build(),
                     "period" => b
                         .validity_period(
                             time::OffsetDateTime::from_unix_timestamp(T0).unwrap(),
@@ -301,6 +338,65 @@ pub fn suite_ident(t: &mut Tracer, thorough: bool, seed: u64, scratch: &str) {
                 let same = back.as_slice().len() == n
                     && back.as_slice().iter().zip(certs[..n].iter()).all(|(a, b)| a.der() == b.der());
                 put(&mut m, "same", json!(same));
+            }
+            Some(Err(e)) => {
+                put(&mut m, "res", json!("err"));
+                put(&mut m, "text", json!(e));
+            }
+            None => put(&mut m, "res", json!("panic")),
+        }
+        emit(t, "pem_rt", m, meas.panicked);
+    }
+    // a file is replaced, not patched: a long chain, then a shorter one / a single certificate at the same path
+    for (first, second) in [(4usize, 1usize), (3, 0), (2, 1), (1, 4)] {
+        let path = format!("{scratch}/over{first}{second}.pem");
+        let mk = |n: usize| CertificateChain::new(certs[..n].iter().map(|c| Certificate::from_der(c.der().to_vec()).unwrap()).collect());
+        let (a, b) = (mk(first), mk(second));
+        let meas = measure(|| {
+            rt.block_on(async {
+                a.store_pemfile(&path).await.map_err(|e| e.to_string())?;
+                b.store_pemfile(&path).await.map_err(|e| e.to_string())?;
+                CertificateChain::load_pemfile(&path).await.map_err(|e| e.to_string())
+            })
+        });
+        let mut m = Map::new();
+        put(&mut m, "what", json!("chain_over"));
+        put(&mut m, "n", json!(second));
+        match &meas.value {
+            Some(Ok(back)) => {
+                put(&mut m, "res", json!("ok"));
+                put(&mut m, "n_back", json!(back.as_slice().len()));
+                let same = back.as_slice().len() == second
+                    && back.as_slice().iter().zip(certs[..second].iter()).all(|(x, y)| x.der() == y.der());
+                put(&mut m, "same", json!(same));
+            }
+            Some(Err(e)) => {
+                put(&mut m, "res", json!("err"));
+                put(&mut m, "text", json!(e));
+            }
+            None => put(&mut m, "res", json!("panic")),
+        }
+        emit(t, "pem_rt", m, meas.panicked);
+    }
+    {
+        // a single certificate stored over a chain file
+        let path = format!("{scratch}/over_cert.pem");
+        let a = CertificateChain::new(certs.iter().map(|c| Certificate::from_der(c.der().to_vec()).unwrap()).collect());
+        let meas = measure(|| {
+            rt.block_on(async {
+                a.store_pemfile(&path).await.map_err(|e| e.to_string())?;
+                certs[0].store_pemfile(&path).await.map_err(|e| e.to_string())?;
+                CertificateChain::load_pemfile(&path).await.map_err(|e| e.to_string())
+            })
+        });
+        let mut m = Map::new();
+        put(&mut m, "what", json!("cert_over_chain"));
+        put(&mut m, "n", json!(1));
+        match &meas.value {
+            Some(Ok(back)) => {
+                put(&mut m, "res", json!("ok"));
+                put(&mut m, "n_back", json!(back.as_slice().len()));
+                put(&mut m, "same", json!(back.as_slice().len() == 1 && back.as_slice()[0].der() == certs[0].der()));
             }
             Some(Err(e)) => {
                 put(&mut m, "res", json!("err"));
@@ -523,7 +619,28 @@ pub fn suite_ident(t: &mut Tracer, thorough: bool, seed: u64, scratch: &str) {
         "00:00:00:00:00:00:00:00:00:00:00:00:00:00:00:00:00:00:00:00:00:00:00:00:00:00:00:00:00:00:00:g0",
         "\u{ff10}\u{ff10}:00", "[1,,2]", "1e2", "+5:+5",
     ];
-    for s in bad_digests {
+    // texts with the right number of hex digits but the wrong structure
+    let canon: String = (0..32).map(|_| "ab").collect::<Vec<_>>().join(":");
+    let mut structural: Vec<String> = vec![
+        (0..16).map(|_| "abab").collect::<Vec<_>>().join(":"),      // 16 groups of four digits
+        "ab".repeat(32),                                            // no separator at all
+        format!("aba:b{}", &canon[5..]),                            // first separator one nibble to the right
+        format!("a:bab{}", &canon[5..]),                            // ... to the left
+        canon.replacen("ab", "100", 1),                             // a group above 0xff
+        canon.replacen("ab", "a\u{e9}", 1),                         // a multi-byte character inside a group
+        canon.replacen("ab:", "\u{e9}:", 1),
+        format!("\u{20ac}{}", &canon[1..]),
+        canon.replacen(":", "::", 1),                               // an empty group
+        canon.replacen(":", ";", 1),
+        format!("{canon}:"),
+        format!(":{canon}"),
+        canon.replace(':', ""),
+        canon.replace(':', " "),
+        (0..32).map(|i| format!("{i}")).collect::<Vec<_>>().join(", "),   // byte array without brackets is fine? no: see judge
+    ];
+    structural.pop(); // (the bracket-less array is accepted by the lenient array parser: not a malformed text)
+    let bad_owned: Vec<String> = bad_digests.iter().map(|s| s.to_string()).chain(structural).collect();
+    for s in bad_owned.iter().map(|s| s.as_str()) {
         let meas = measure(|| {
             (
                 Sha256Digest::from_str_fmt(s, Sha256DigestFmt::DottedHex).is_ok(),
@@ -805,6 +922,13 @@ pub fn suite_cfg(t: &mut Tracer, thorough: bool, _seed: u64) {
         ("2^62ms", Some(Duration::from_millis(1u64 << 62))),
         ("max", Some(Duration::MAX)),
         ("2^63ms", Some(Duration::from_millis(1u64 << 63))),
+        ("2^64-1ms", Some(Duration::from_millis(u64::MAX))),
+        // beyond u64 milliseconds (a truncating conversion wraps these into the representable range)
+        ("2^64ms+10s", Some(Duration::from_secs(18_446_744_073_709_562))),
+        ("2^62s", Some(Duration::from_secs(1u64 << 62))),
+        ("2^65ms+1ms", Some(Duration::new(36_893_488_147_419_103, 233_000_000))),
+        ("maxsecs", Some(Duration::from_secs(u64::MAX))),
+        ("3*2^64ms+500ms", Some(Duration::new(55_340_232_221_128_655, 348_000_000))),
     ];
     for (name, d) in &idles {
         for side in ["server", "client"] {
@@ -819,6 +943,16 @@ pub fn suite_cfg(t: &mut Tracer, thorough: bool, _seed: u64) {
             let mut m = Map::new();
             put(&mut m, "side", json!(side));
             put(&mut m, "idle", json!(name));
+            // the requested value in milliseconds as base-2^31 digits, least significant first ([] = none)
+            let mut limbs = Vec::new();
+            if let Some(d) = d {
+                let mut ms = d.as_millis();
+                for _ in 0..5 {
+                    limbs.push((ms & 0x7fff_ffff) as u64);
+                    ms >>= 31;
+                }
+            }
+            put(&mut m, "ms", json!(limbs));
             put(
                 &mut m,
                 "res",
